@@ -8,6 +8,9 @@ def run(ctx):
     splits.rule_split_contents(ctx)
     from . import invariance
     invariance.rule_component_traversal(ctx)
+    from . import progress
+    progress.rule_maximal_result_from_search(ctx)
+    progress.rule_ideal_early_exit(ctx)
     accept.rule_stable_unsat(ctx, 'extension')
     provenance.rule_argument_provenance(ctx)
     provenance.rule_ownership(ctx)
